@@ -4,6 +4,7 @@ import Rdpgw.Oracle.Rdp
 import Rdpgw.Oracle.Ntlm
 import Rdpgw.Oracle.Kdc
 import Rdpgw.Oracle.Download
+import Rdpgw.Oracle.Multi
 
 /-!
 # rdpgw_oracle — line-protocol driver for the executable models
@@ -50,6 +51,7 @@ def dispatch (line : String) : String :=
     | "kdc-status" => cmdKdcStatus m
     | "usertoken" => cmdUserToken m
     | "tokeninfo" => cmdTokenInfo m
+    | "multi" => cmdMulti m
     | _ => "bad-op"
 
 partial def loop (h : IO.FS.Stream) (out : IO.FS.Stream) : IO Unit := do
